@@ -96,8 +96,34 @@ func ItemsEqual(it, with Item) bool {
 				})
 			}
 		}
+	} else if IsLink(it) {
+		if !IsLink(with) {
+			return false
+		}
+		_ = OnLink(it, func(l *Link) error {
+			return OnLink(with, func(w *Link) error {
+				result = linksEqual(l, w)
+				return nil
+			})
+		})
 	}
 	return result
+}
+
+func linksEqual(l, w *Link) bool {
+	if l == nil || w == nil {
+		return l == w
+	}
+	return l.ID.Equals(w.ID, true) &&
+		strings.EqualFold(string(l.Type), string(w.Type)) &&
+		l.Href.Equals(w.Href, true) &&
+		l.Rel.Equals(w.Rel, true) &&
+		l.MediaType == w.MediaType &&
+		l.HrefLang == w.HrefLang &&
+		l.Height == w.Height &&
+		l.Width == w.Width &&
+		l.Name.Equals(w.Name) &&
+		ItemsEqual(l.Preview, w.Preview)
 }
 
 // IsItemCollection returns if the current Item interface holds a Collection
